@@ -1,6 +1,7 @@
 """C09 - validate_signature delivers validated values, is strict and transparent."""
 from __future__ import annotations
 
+import dataclasses
 import inspect
 import json
 import os
@@ -16,6 +17,7 @@ from . import C08
 from . import sigcommon as SC
 
 ROOT = os.path.dirname(os.path.dirname(os.path.dirname(os.path.abspath(__file__))))
+from ..rundir import GEN as _GEN  # noqa: E402
 ASSUMPTIONS = C08.ASSUMPTIONS + [
     "payload comparison on the implementation is by equality and type (containers and records may be rebuilt copies)",
     "strictness under the default resolution is checked on the derivation in signature mode (C07's grammar and type oracle) - see the strict family",
@@ -27,7 +29,7 @@ TRUSTED_EXTRA = ["fact translator harness/facts/sigfacts.py (python ast) regener
 def regenerate_facts():
     from ..facts import sigfacts
     try:
-        d = sigfacts.emit(os.environ.get("KV_REPO", "/repo"), os.path.join(ROOT, "coq", "generated", "Facts_sig.v"))
+        d = sigfacts.emit(os.environ.get("KV_REPO", "/repo"), os.path.join(_GEN, "Facts_sig.v"))
         if d["bad"]:
             return True, "signature wrapper facts no longer hold: " + "; ".join(f"{a} [{c}]" for a, _, c in d["bad"][:4])
         return True, ""
@@ -43,9 +45,27 @@ def same(a: Any, b: Any) -> bool:
             return True
     except Exception:  # noqa - sNaN comparisons raise
         return repr(a) == repr(b)
+    if type(a) is not type(b):
+        return False
     # opaque objects of the harness's own classes compare by identity; two separately built calls hold two
-    # separately built objects for the same term
-    return type(a) is type(b) and (type(a).__module__ or "").startswith("harness") and repr(a) == repr(b)
+    # separately built objects for the same term - also inside containers
+    if type(a) in (list, tuple):
+        return len(a) == len(b) and all(same(x, y) for x, y in zip(a, b))
+    if type(a) in (set, frozenset):
+        rest = list(b)
+        for x in a:
+            i = next((i for i, y in enumerate(rest) if same(x, y)), None)
+            if i is None:
+                return False
+            rest.pop(i)
+        return not rest
+    if type(a) is dict:
+        return len(a) == len(b) and all(any(same(k, k2) and same(v, b[k2]) for k2 in b) for k, v in a.items())
+    if dataclasses.is_dataclass(a) and not isinstance(a, type):
+        return all(same(getattr(a, f.name), getattr(b, f.name)) for f in dataclasses.fields(a))
+    if isinstance(a, tuple) and hasattr(a, "_fields"):
+        return all(same(x, y) for x, y in zip(a, b))
+    return (type(a).__module__ or "").startswith("harness") and repr(a) == repr(b)
 
 
 def oracle(c: SC.SigCase) -> Optional[dict]:
@@ -170,8 +190,53 @@ def probe_known(k: dict) -> bool:
         return False
 
 
+def shared_config() -> Optional[str]:
+    """One configured decorator - one ignore set, one overrides dict - applied to several functions: every function
+    is wrapped as if it had been given its own copies (untouched arguments stay untouched for all of them) and the
+    caller's configuration objects are not modified."""
+    from koda_validate import IntValidator, StringValidator, strip
+    from koda_validate.signature import InvalidArgsError, validate_signature
+    from ..corr import drive
+    for is_async in (False, True):
+        ign = {"debug", "extra"}
+        ovr = {"label": StringValidator(preprocessors=[strip])}
+        ign0, ovr0 = set(ign), dict(ovr)
+        deco = validate_signature(ignore_args=ign, overrides=ovr)
+        seen: List[Any] = []
+
+        def mk(n):
+            if is_async:
+                async def f(x: int, debug: int = 0, *, label: str = "l", **kw: int):
+                    seen.append((n, x, debug, label, kw))
+                    return x
+            else:
+                def f(x: int, debug: int = 0, *, label: str = "l", **kw: int):    # type: ignore
+                    seen.append((n, x, debug, label, kw))
+                    return x
+            f.__annotations__ = {"x": int, "debug": int, "label": str, "kw": int}     # real types, not the strings PEP 563 leaves
+            return f
+        fs = [deco(mk(n)) for n in range(3)]
+        for n, w in enumerate(fs):
+            del seen[:]
+            try:
+                r = w(1, "not an int", label=" t ", extra="also untouched")
+                if is_async:
+                    r = drive(r)
+            except InvalidArgsError as e:
+                return (f"the {n + 1}. function wrapped by one validate_signature(ignore_args={ign0!r}, ...) rejected arguments "
+                        f"that are to be passed through untouched: {e!r}"[:500])
+            if seen != [(n, 1, "not an int", "t", {"extra": "also untouched"})]:
+                return f"the {n + 1}. function wrapped by one configured decorator received {seen!r}"
+        if ign != ign0 or ovr != ovr0:
+            return f"the caller's configuration objects were modified: ignore_args {ign0!r} -> {ign!r}, overrides keys {sorted(ovr0)} -> {sorted(ovr)}"
+    return None
+
+
 def run(tier: str, rng: random.Random, proof_ok: bool) -> dict:
     rep = C08.run(tier, rng, proof_ok, oracle_fn=oracle, name="C09")
+    sc = shared_config()
+    if sc:
+        rep["violations"].append({"kind": "oracle", "signature": "C09:shared-configuration", "what": sc, "replay_case": {"shared_config": True}})
     st = strict_family(rng, 900 if tier == "quick" else 12000)
     rep["violations"] += st["violations"]
     rep["coverage"]["strict_family"] = {k: st[k] for k in ("ran", "accepted", "rejected")}
@@ -182,6 +247,10 @@ def run(tier: str, rng: random.Random, proof_ok: bool) -> dict:
 def replay(path: str) -> int:
     j = json.load(open(path))
     cj = j.get("replay_case") or {}
+    if cj.get("shared_config"):
+        r = shared_config()
+        print("property violated: " + r if r else "property holds for a configured decorator applied to several functions")
+        return 1 if r else 0
     if "strict" in cj:
         from . import C07
         from koda_validate.signature import validate_signature
